@@ -18,8 +18,10 @@ Proved (all points):
   source on every run) *is* `SegMeetsRect`, for every rectangle (proper, segment, point, inverted)
   and every non-degenerate edge; `C16_rect_metric_no_miss` — when it answers `false` no point of the
   edge lies in the closed rectangle.
-`C16_partial`: exactly-once / completeness of the flood fill itself is decided per run; that
-`SegMeetsRect` implies a common point (no false positives) is not proved.
+* `C16_segMeetsRect_has_point` (no false positives: the predicate implies a common rational point)
+  and hence `C16_rect_metric_exact`: the generated edge test answers `true` **iff** the closed edge
+  and the closed rectangle have a point in common.
+`C16_partial`: exactly-once / completeness of the flood fill itself is decided per run.
 -/
 import Spade.Extra
 import Spade.Proofs.GeomLemmas
@@ -27,6 +29,13 @@ import Spade.Generated.Leaf
 import Spade.Properties.C06
 import Mathlib.Tactic.Linarith
 import Mathlib.Tactic.LinearCombination
+import Mathlib.Tactic.FieldSimp
+import Mathlib.Tactic.Ring
+import Mathlib.Tactic.Push
+import Mathlib.Tactic.NormNum
+import Mathlib.Data.Rat.Defs
+import Mathlib.Data.Rat.Lemmas
+import Mathlib.Algebra.Order.Field.Basic
 namespace Spade
 open St Generated
 
@@ -441,6 +450,222 @@ theorem C16_rect_metric_no_miss (lo hi a b : Pt) (hab : a ≠ b) (n d : Int) (hd
       (neg hi c2)
       (by have := neg ⟨hi.x, lo.y⟩ c4; simpa [Pt.smul] using this)
     omega
+
+/-! ### the converse: `SegMeetsRect` ⇒ a common point (over `ℚ`) -/
+
+/-- zero of an affine function between a point where it is ≥ 0 and one where it is ≤ 0 -/
+theorem affine_ivt (u v : ℚ) (hu : 0 ≤ u) (hv : v ≤ 0) : ∃ s : ℚ, 0 ≤ s ∧ s ≤ 1 ∧ u + s * (v - u) = 0 := by
+  by_cases h : u = v
+  · refine ⟨0, le_refl _, by norm_num, ?_⟩
+    have : u = 0 := by linarith
+    simp [this]
+  · have hpos : 0 < u - v := by
+      rcases lt_or_eq_of_le (by linarith : 0 ≤ u - v) with h1 | h1
+      · exact h1
+      · exfalso; apply h; linarith
+    refine ⟨u / (u - v), div_nonneg hu hpos.le, ?_, ?_⟩
+    · rw [div_le_one hpos]; linarith
+    · field_simp
+      ring
+
+/-- the supporting line meets the box when the corners are not all strictly on one side -/
+theorem line_meets_box (ax ay dx dy lox loy hix hiy : ℚ) (hx : lox ≤ hix) (hy : loy ≤ hiy)
+    (hnl : ¬ (0 < dx * (loy - ay) - dy * (lox - ax) ∧ 0 < dx * (hiy - ay) - dy * (hix - ax) ∧
+              0 < dx * (hiy - ay) - dy * (lox - ax) ∧ 0 < dx * (loy - ay) - dy * (hix - ax)))
+    (hnr : ¬ (dx * (loy - ay) - dy * (lox - ax) < 0 ∧ dx * (hiy - ay) - dy * (hix - ax) < 0 ∧
+              dx * (hiy - ay) - dy * (lox - ax) < 0 ∧ dx * (loy - ay) - dy * (hix - ax) < 0)) :
+    ∃ px py : ℚ, lox ≤ px ∧ px ≤ hix ∧ loy ≤ py ∧ py ≤ hiy ∧ dx * (py - ay) - dy * (px - ax) = 0 := by
+  -- a corner with value ≤ 0 and one with value ≥ 0
+  have hP : ∃ qx qy : ℚ, lox ≤ qx ∧ qx ≤ hix ∧ loy ≤ qy ∧ qy ≤ hiy ∧ 0 ≤ dx * (qy - ay) - dy * (qx - ax) := by
+    by_contra h
+    apply hnr
+    refine ⟨?_, ?_, ?_, ?_⟩ <;> apply lt_of_not_ge <;> intro hc
+    · exact h ⟨lox, loy, le_refl _, hx, le_refl _, hy, hc⟩
+    · exact h ⟨hix, hiy, hx, le_refl _, hy, le_refl _, hc⟩
+    · exact h ⟨lox, hiy, le_refl _, hx, hy, le_refl _, hc⟩
+    · exact h ⟨hix, loy, hx, le_refl _, le_refl _, hy, hc⟩
+  have hQ : ∃ qx qy : ℚ, lox ≤ qx ∧ qx ≤ hix ∧ loy ≤ qy ∧ qy ≤ hiy ∧ dx * (qy - ay) - dy * (qx - ax) ≤ 0 := by
+    by_contra h
+    apply hnl
+    refine ⟨?_, ?_, ?_, ?_⟩ <;> apply lt_of_not_ge <;> intro hc
+    · exact h ⟨lox, loy, le_refl _, hx, le_refl _, hy, hc⟩
+    · exact h ⟨hix, hiy, hx, le_refl _, hy, le_refl _, hc⟩
+    · exact h ⟨lox, hiy, le_refl _, hx, hy, le_refl _, hc⟩
+    · exact h ⟨hix, loy, hx, le_refl _, le_refl _, hy, hc⟩
+  obtain ⟨x1, y1, a1, a2, a3, a4, hu⟩ := hP
+  obtain ⟨x2, y2, b1, b2, b3, b4, hv⟩ := hQ
+  obtain ⟨s, s0, s1, hs⟩ := affine_ivt _ _ hu hv
+  refine ⟨x1 + s * (x2 - x1), y1 + s * (y2 - y1), ?_, ?_, ?_, ?_, ?_⟩
+  · nlinarith [mul_nonneg s0 (sub_nonneg.mpr b1), mul_nonneg (sub_nonneg.mpr s1) (sub_nonneg.mpr a1)]
+  · nlinarith [mul_nonneg s0 (sub_nonneg.mpr b2), mul_nonneg (sub_nonneg.mpr s1) (sub_nonneg.mpr a2)]
+  · nlinarith [mul_nonneg s0 (sub_nonneg.mpr b3), mul_nonneg (sub_nonneg.mpr s1) (sub_nonneg.mpr a3)]
+  · nlinarith [mul_nonneg s0 (sub_nonneg.mpr b4), mul_nonneg (sub_nonneg.mpr s1) (sub_nonneg.mpr a4)]
+  · linear_combination hs
+
+/-- closed segment and closed box over `ℚ`: bounding boxes overlap and the corners are not all
+strictly on one side of the supporting line ⇒ they have a common point -/
+theorem seg_meets_box (ax ay bx by_ lox loy hix hiy : ℚ) (hab : ax ≠ bx ∨ ay ≠ by_)
+    (hx : lox ≤ hix) (hy : loy ≤ hiy)
+    (m1 : min ax bx ≤ hix) (m2 : lox ≤ max ax bx) (m3 : min ay by_ ≤ hiy) (m4 : loy ≤ max ay by_)
+    (hnl : ¬ (0 < (bx - ax) * (loy - ay) - (by_ - ay) * (lox - ax) ∧ 0 < (bx - ax) * (hiy - ay) - (by_ - ay) * (hix - ax) ∧
+              0 < (bx - ax) * (hiy - ay) - (by_ - ay) * (lox - ax) ∧ 0 < (bx - ax) * (loy - ay) - (by_ - ay) * (hix - ax)))
+    (hnr : ¬ ((bx - ax) * (loy - ay) - (by_ - ay) * (lox - ax) < 0 ∧ (bx - ax) * (hiy - ay) - (by_ - ay) * (hix - ax) < 0 ∧
+              (bx - ax) * (hiy - ay) - (by_ - ay) * (lox - ax) < 0 ∧ (bx - ax) * (loy - ay) - (by_ - ay) * (hix - ax) < 0)) :
+    ∃ t : ℚ, 0 ≤ t ∧ t ≤ 1 ∧ lox ≤ ax + t * (bx - ax) ∧ ax + t * (bx - ax) ≤ hix ∧
+      loy ≤ ay + t * (by_ - ay) ∧ ay + t * (by_ - ay) ≤ hiy := by
+  obtain ⟨px, py, p1, p2, p3, p4, hp⟩ := line_meets_box ax ay (bx - ax) (by_ - ay) lox loy hix hiy hx hy hnl hnr
+  generalize hdx : bx - ax = dx at *
+  generalize hdy : by_ - ay = dy at *
+  have hbx : bx = ax + dx := by linarith
+  have hby : by_ = ay + dy := by linarith
+  have hd : dx ≠ 0 ∨ dy ≠ 0 := by
+    rcases hab with h | h
+    · left; intro hc; apply h; linarith
+    · right; intro hc; apply h; linarith
+  have hL : 0 < dx * dx + dy * dy := by
+    rcases hd with h | h
+    · have := mul_self_pos.mpr h; nlinarith [mul_self_nonneg dy]
+    · have := mul_self_pos.mpr h; nlinarith [mul_self_nonneg dx]
+  -- the parameter of p on the line
+  set t := ((px - ax) * dx + (py - ay) * dy) / (dx * dx + dy * dy) with ht
+  have hne : dx * dx + dy * dy ≠ 0 := hL.ne'
+  have htL : t * (dx * dx + dy * dy) = (px - ax) * dx + (py - ay) * dy := by
+    rw [ht]; exact div_mul_cancel₀ _ hne
+  have hpx : px = ax + t * dx := by
+    have h0 : (dx * dx + dy * dy) * (px - ax - t * dx) = 0 := by
+      linear_combination (-dy) * hp + (-dx) * htL
+    rcases mul_eq_zero.mp h0 with h | h
+    · exact absurd h hne
+    · linarith
+  have hpy : py = ay + t * dy := by
+    have h0 : (dx * dx + dy * dy) * (py - ay - t * dy) = 0 := by
+      linear_combination dx * hp + (-dy) * htL
+    rcases mul_eq_zero.mp h0 with h | h
+    · exact absurd h hne
+    · linarith
+  -- bounding boxes in terms of dx, dy
+  have n1 : ax ≤ hix ∨ ax + dx ≤ hix := by
+    rcases le_total ax bx with h | h
+    · left; rwa [min_eq_left h] at m1
+    · right; rw [min_eq_right h] at m1; linarith
+  have n2 : lox ≤ ax ∨ lox ≤ ax + dx := by
+    rcases le_total ax bx with h | h
+    · right; rw [max_eq_right h] at m2; linarith
+    · left; rwa [max_eq_left h] at m2
+  have n3 : ay ≤ hiy ∨ ay + dy ≤ hiy := by
+    rcases le_total ay by_ with h | h
+    · left; rwa [min_eq_left h] at m3
+    · right; rw [min_eq_right h] at m3; linarith
+  have n4 : loy ≤ ay ∨ loy ≤ ay + dy := by
+    rcases le_total ay by_ with h | h
+    · right; rw [max_eq_right h] at m4; linarith
+    · left; rwa [max_eq_left h] at m4
+  rcases lt_trichotomy t 0 with tneg | tz | tpos
+  · -- p lies before a: a itself is in the box
+    refine ⟨0, le_refl _, by norm_num, ?_, ?_, ?_, ?_⟩ <;> simp only [zero_mul, add_zero]
+    · by_contra hc
+      have hc := lt_of_not_ge hc
+      have hdxpos : 0 < dx := by rcases n2 with h | h <;> linarith
+      nlinarith [mul_neg_of_neg_of_pos tneg hdxpos]
+    · by_contra hc
+      have hc := lt_of_not_ge hc
+      have hdxneg : dx < 0 := by rcases n1 with h | h <;> linarith
+      nlinarith [mul_pos_of_neg_of_neg tneg hdxneg]
+    · by_contra hc
+      have hc := lt_of_not_ge hc
+      have hdypos : 0 < dy := by rcases n4 with h | h <;> linarith
+      nlinarith [mul_neg_of_neg_of_pos tneg hdypos]
+    · by_contra hc
+      have hc := lt_of_not_ge hc
+      have hdyneg : dy < 0 := by rcases n3 with h | h <;> linarith
+      nlinarith [mul_pos_of_neg_of_neg tneg hdyneg]
+  · exact ⟨t, by linarith, by linarith, by linarith, by linarith, by linarith, by linarith⟩
+  · rcases le_or_gt t 1 with t1 | t1
+    · exact ⟨t, tpos.le, t1, by linarith, by linarith, by linarith, by linarith⟩
+    · -- p lies behind b: b itself is in the box
+      refine ⟨1, by norm_num, le_refl _, ?_, ?_, ?_, ?_⟩ <;> simp only [one_mul]
+      · by_contra hc
+        have hc := lt_of_not_ge hc
+        have hdxneg : dx < 0 := by rcases n2 with h | h <;> linarith
+        nlinarith [mul_neg_of_pos_of_neg (sub_pos.mpr t1) hdxneg]
+      · by_contra hc
+        have hc := lt_of_not_ge hc
+        have hdxpos : 0 < dx := by rcases n1 with h | h <;> linarith
+        nlinarith [mul_pos (sub_pos.mpr t1) hdxpos]
+      · by_contra hc
+        have hc := lt_of_not_ge hc
+        have hdyneg : dy < 0 := by rcases n4 with h | h <;> linarith
+        nlinarith [mul_neg_of_pos_of_neg (sub_pos.mpr t1) hdyneg]
+      · by_contra hc
+        have hc := lt_of_not_ge hc
+        have hdypos : 0 < dy := by rcases n3 with h | h <;> linarith
+        nlinarith [mul_pos (sub_pos.mpr t1) hdypos]
+
+/-- **no false positives**: `SegMeetsRect` implies that the closed edge and the closed rectangle have
+a common point `a + t(b-a)`, `t ∈ [0,1]` rational -/
+theorem C16_segMeetsRect_has_point (lo hi a b : Pt) (hab : a ≠ b) (h : SegMeetsRect lo hi a b) :
+    ∃ t : ℚ, 0 ≤ t ∧ t ≤ 1 ∧ (lo.x : ℚ) ≤ a.x + t * (b.x - a.x) ∧ (a.x : ℚ) + t * (b.x - a.x) ≤ hi.x ∧
+      (lo.y : ℚ) ≤ a.y + t * (b.y - a.y) ∧ (a.y : ℚ) + t * (b.y - a.y) ≤ hi.y := by
+  unfold SegMeetsRect at h
+  obtain ⟨hx, hy, m1, m2, m3, m4, hnl, hnr⟩ := h
+  have hab' : (a.x : ℚ) ≠ b.x ∨ (a.y : ℚ) ≠ b.y := by
+    by_contra hc
+    push Not at hc
+    apply hab
+    have h1 : a.x = b.x := by exact_mod_cast hc.1
+    have h2 : a.y = b.y := by exact_mod_cast hc.2
+    cases a; cases b; simp_all
+  apply seg_meets_box (a.x : ℚ) a.y b.x b.y lo.x lo.y hi.x hi.y hab' (by exact_mod_cast hx) (by exact_mod_cast hy)
+    (by exact_mod_cast m1) (by exact_mod_cast m2) (by exact_mod_cast m3) (by exact_mod_cast m4)
+  · intro hc
+    apply hnl
+    unfold orient
+    simp only
+    obtain ⟨c1, c2, c3, c4⟩ := hc
+    exact ⟨by exact_mod_cast c1, by exact_mod_cast c2, by exact_mod_cast c3, by exact_mod_cast c4⟩
+  · intro hc
+    apply hnr
+    unfold orient
+    simp only
+    obtain ⟨c1, c2, c3, c4⟩ := hc
+    exact ⟨by exact_mod_cast c1, by exact_mod_cast c2, by exact_mod_cast c3, by exact_mod_cast c4⟩
+
+/-- **the rectangle metric is exactly "the edge and the closed rectangle have a point in common"** —
+the T0-generated `RectangleMetric::is_edge_inside` answers `true` iff some point `a + t(b-a)`,
+`0 ≤ t ≤ 1` rational, lies in the closed rectangle; every rectangle, every non-degenerate edge -/
+theorem C16_rect_metric_exact (lo hi a b : Pt) (hab : a ≠ b) :
+    Generated.rect_is_edge_inside lo hi a b = true ↔
+      ∃ t : ℚ, 0 ≤ t ∧ t ≤ 1 ∧ (lo.x : ℚ) ≤ a.x + t * (b.x - a.x) ∧ (a.x : ℚ) + t * (b.x - a.x) ≤ hi.x ∧
+        (lo.y : ℚ) ≤ a.y + t * (b.y - a.y) ∧ (a.y : ℚ) + t * (b.y - a.y) ≤ hi.y := by
+  constructor
+  · intro h
+    exact C16_segMeetsRect_has_point lo hi a b hab ((C16_rect_metric_is_spec lo hi a b hab).mp h)
+  · rintro ⟨t, t0, t1, h1, h2, h3, h4⟩
+    by_contra hf
+    have hf' : Generated.rect_is_edge_inside lo hi a b = false := by simpa using hf
+    -- t = n / d with d > 0
+    have hd : (0 : ℚ) < t.den := by exact_mod_cast t.den_pos
+    have htd : t * t.den = t.num := Rat.mul_den_eq_num t
+    have hn0 : (0 : Int) ≤ t.num := Rat.num_nonneg.mpr t0
+    have hn1 : t.num ≤ (t.den : Int) := by
+      have : (t.num : ℚ) ≤ t.den := by rw [← htd]; nlinarith
+      exact_mod_cast this
+    apply C16_rect_metric_no_miss lo hi a b hab t.num t.den (by exact_mod_cast t.den_pos) hn0 hn1 hf'
+    unfold segPointScaled
+    simp only
+    refine ⟨?_, ?_, ?_, ?_⟩
+    · have : ((t.den : Int) : ℚ) * lo.x ≤ (t.den : Int) * a.x + t.num * ((b.x : ℚ) - a.x) := by
+        push_cast; rw [← htd]; nlinarith
+      exact_mod_cast this
+    · have : ((t.den : Int) : ℚ) * a.x + t.num * ((b.x : ℚ) - a.x) ≤ (t.den : Int) * hi.x := by
+        push_cast; rw [← htd]; nlinarith
+      exact_mod_cast this
+    · have : ((t.den : Int) : ℚ) * lo.y ≤ (t.den : Int) * a.y + t.num * ((b.y : ℚ) - a.y) := by
+        push_cast; rw [← htd]; nlinarith
+      exact_mod_cast this
+    · have : ((t.den : Int) : ℚ) * a.y + t.num * ((b.y : ℚ) - a.y) ≤ (t.den : Int) * hi.y := by
+        push_cast; rw [← htd]; nlinarith
+      exact_mod_cast this
 
 /-- non-vacuity / regression: the edge of fix F29 (through two corners of the rectangle, scaled to
 integers) is inside; an edge passing the rectangle outside of a corner is not -/
